@@ -1155,3 +1155,14 @@ def gen_oom(rng, tier):
                         continue    # thousands of requests: thorough tier only
                     ops.append(f"oom.bitmap op={alg} " + " ".join(h + hb))
     return ops
+
+
+# ---------------------------------------------------------------- C17 concurrent calls
+def gen_mt(rng, tier):
+    ops = []
+    quick = tier == "quick"
+    for n in ([1, 2, 17, 300, 2000] if quick else [1, 2, 17, 128, 300, 2000, 10001, 70000]):
+        for threads in ([2, 16] if quick else [2, 3, 8, 16]):
+            iters = (150 if n <= 300 else 40) if quick else (2000 if n <= 300 else 200)
+            ops.append(f"mt threads={hx(threads)} iters={hx(iters)} seed={hx(rng.getrandbits(40))} n={hx(n)}")
+    return ops
